@@ -335,6 +335,9 @@ class Contract:
     max_paths: int = 3000
     native_samples: Optional[Callable] = None  # () -> iterable of kwargs dicts for bounded/native runs
     bind: str = "auto"  # how the stub receives args
+    # contracted functions whose REAL BODY runs during this exploration instead of their stub
+    # (used by lemmas that are second entry points of a function: its other input shapes)
+    unstub: Sequence[str] = ()
     # replay: (args, run) -> list of failure strings; run() calls the real function and returns
     # ("return", value) or ("raise", exc).  Used instead of evaluating the clauses natively when the
     # clauses speak about ghost state that has no native counterpart (stream positions)
